@@ -509,13 +509,100 @@ def check_file(text, label=""):
     return None, True
 
 
+CUSTOM_TAGS = [("EDGE_DIST", 2, 1, 1), ("EDGE_PRIOR_XY", 1, 2, 2), ("EDGE_TRIPLE", 3, 1, 1), ("MY:EDGE", 2, 3, 3)]
+
+
+def check_custom_file(rng, label=""):
+    """files that mix standard lines with lines of several *registered* custom edge types (distinct tags): every line of a
+    registered type yields exactly one edge of that type carrying the line's numbers, in file order; lines of an
+    unregistered type are skipped with one warning each.  Independent of the Lean model."""
+    types = [H.make_custom(i, t, n, e, d, True, True) for i, (t, n, e, d) in enumerate(CUSTOM_TAGS)]
+    rng.shuffle(types)
+    registered = types[: rng.randrange(1, len(types) + 1)]
+    nv = rng.randrange(2, 6)
+    lines, expect, warns = [], [], []
+    vids = list(range(nv))
+    for i in vids:
+        lines.append("VERTEX_SE2 %d %r %r %r" % (i, rng.uniform(-5, 5), rng.uniform(-5, 5), rng.uniform(-3, 3)))
+    body = []
+    for _ in range(rng.randrange(2, 9)):
+        if rng.random() < 0.3:
+            a, b = rng.choice(vids), rng.choice(vids)
+            nums = [rng.uniform(-2, 2), rng.uniform(-2, 2), rng.uniform(-3, 3)] + [2.0, 0.0, 0.0, 3.0, 0.0, 4.0]
+            body.append(("std", "EDGE_SE2 %d %d " % (a, b) + " ".join(repr(x) for x in nums), None, [a, b], nums))
+        else:
+            c = rng.choice(types)
+            tag, n_ids, est_dim, info_dim = c.SPEC[:4]
+            ids = [rng.choice(vids) for _ in range(n_ids)]
+            nums = [rng.uniform(-9, 9) for _ in range(est_dim)] + [rng.uniform(0.5, 5) for _ in range(info_dim * (info_dim + 1) // 2)]
+            body.append(("custom", tag + " " + " ".join(str(i) for i in ids) + " " + " ".join(repr(x) for x in nums), c, ids, nums))
+    if rng.random() < 0.5:
+        body_lines = [b[1] for b in body]
+        pos = sorted(rng.randrange(0, len(body_lines) + 1) for _ in lines)
+        # vertices may be interleaved with edges
+        merged, vi = [], 0
+        for k, bl in enumerate(body_lines):
+            while vi < len(lines) and pos[vi] <= k:
+                merged.append(lines[vi])
+                vi += 1
+            merged.append(bl)
+        merged += lines[vi:]
+        text = "\n".join(merged) + "\n"
+    else:
+        text = "\n".join(lines + [b[1] for b in body]) + "\n"
+    for kind, line, c, ids, nums in body:
+        if kind == "std":
+            expect.append((EdgeOdometry, ids, nums))
+        elif c in registered:
+            expect.append((c, ids, nums))
+        else:
+            warns.append("Line not supported -- '%s'" % line)
+    path = _tmpfile("c14c.g2o")
+    with open(path, "w") as f:
+        f.write(text)
+    with _Quiet() as log, warnings.catch_warnings(), np.errstate(all="ignore"):
+        warnings.simplefilter("ignore")
+        try:
+            g = Graph.from_g2o(path, list(registered))
+        except Exception as e:  # noqa: BLE001
+            return dict(match="g2o-custom-raises", kind="a file with registered custom edge types is rejected", error=repr(e)[:200], file=text, registered=[c.SPEC[0] for c in registered], label=label)
+        recs = [m for _, m in log.records]
+    os.remove(path)
+    w = lambda what: dict(match="g2o-custom:" + what, kind="custom edge types: " + what, file=text, registered=[c.SPEC[0] for c in registered], label=label, edges=[type(e).__name__ for e in g._edges], log=recs)
+    if sorted(recs) != sorted(warns):
+        return w("warnings differ from the unregistered lines")
+    if len(g._edges) != len(expect):
+        return w("number of edges")
+    for e, (c, ids, nums) in zip(g._edges, expect):
+        if type(e) is not c or list(e.vertex_ids) != ids:
+            return w("edge class / ids / order")
+        if c is EdgeOdometry:
+            # the SE(2) angle may be wrapped (congruent, inside [-pi, pi]); everything else bitwise
+            if not body_ok("se2", list(np.asarray(e.estimate)), nums[:3]):
+                return w("numbers")
+            got = nums[:3] + list(np.asarray(e.information)[np.triu_indices(3)])
+        else:
+            d = c.SPEC[3]
+            got = list(np.asarray(e.estimate)) + list(np.asarray(e.information)[np.triu_indices(d)])
+            if not np.array_equal(np.asarray(e.information), np.asarray(e.information).T):
+                return w("information not symmetric")
+        if not same_bits(got, nums):
+            return w("numbers")
+    if [v.id for v in g._vertices] != vids:
+        return w("vertices")
+    return None
+
+
 def search_c14(seed, n):
     found, ev, judged, seen = [], 0, 0, set()
     try:
         for k in range(n):
             rng = Rng(seed, "c14search|%d" % k)
-            text, desc = H.gen_file(rng, malformed=rng.random() < 0.2)
-            w, j = check_file(text, "file %d %s" % (k, desc))
+            if k % 3 == 2:
+                w, j = check_custom_file(rng, "custom-type file %d" % k), True
+            else:
+                text, desc = H.gen_file(rng, malformed=rng.random() < 0.2)
+                w, j = check_file(text, "file %d %s" % (k, desc))
             ev += 1
             judged += bool(j)
             if w and w["match"] not in seen:
